@@ -167,7 +167,7 @@ def run_async(case, rec_out):
     sent = []
 
     async def main(loop):
-        rec = Recorder(budget=12000, clock=loop.time)
+        rec = Recorder(budget=8000, clock=loop.time)
         rec.iter_fn = lambda: loop.iterations
         rec_out.append(rec)
         cfg, logic = build(spec, rec, async_mode=True)
@@ -232,7 +232,7 @@ def run_sync(case, rec_out):
             codes = {SyncInterpreter.send.__code__, SyncInterpreter.send_events.__code__,
                      SyncInterpreter._process_event_queue.__code__}
             un_preempt, hits, _cnt = vthreads.install_line_preemption(sched, case["preempt"], codes)
-        rec = Recorder(budget=12000, clock=lambda: sched.now)
+        rec = Recorder(budget=3000 if case.get("preempt") else 8000, clock=lambda: sched.now)
         rec_out.append(rec)
         cfg, logic = build(spec, rec, sleeper=sched.sleep)
         it = SyncInterpreter(create_machine(cfg, logic=logic))
